@@ -1,6 +1,11 @@
 """C17 — sorting, IsSorted and Heap. Same protocol, harness and sequence-level oracle as C16; the
 generator builds lists from the element-sequence categories the property names, sorts them with the
-three comparators, asks IsSorted before and after, and then keeps using the list."""
+three comparators, asks IsSorted before and after, and then keeps using the list.
+Besides the differential run, the pointer-level model of dt/cmp.go is tied to the source by a regenerated tie (T-gen):
+tools/go2lean (cmp.go) rewrites lean/FunGen/Cmp.lean from $VERIF_REPO/dt/cmp.go on every run and the theorems of
+FunProps/C17Gen.lean prove the hand-written IsSorted/split/merge/mergeSort/SortMerge/Heap.Push/Pop/Len of
+FunModel/Dll.lean equal to the regenerated functions. If dt/cmp.go leaves the translator's subset, FunGen/Cmp.lean does
+not compile and this property (only) reports a broken tie."""
 from . import common as C
 from . import c16
 from .seqref import Ref, Unspecified
@@ -12,7 +17,10 @@ RULE = ("element sequences: empty, singleton, duplicates-heavy, sorted, reversed
         "observable); each case: build, IsSorted, SortMerge or SortQuick, IsSorted, then arbitrary C16 operations on the "
         "sorted list (remains usable), plus Heap push/pop sequences. Non-trivial: the list has >=2 elements and a sort "
         "changed the order or IsSorted answered false; distinct = distinct case lines.")
-TRUSTED = ["sort.SliceStable is trusted to be a stable sort (modelled by stable insertion sort)"] + c16.TRUSTED
+TRUSTED = ["sort.SliceStable is trusted to be a stable sort (modelled by stable insertion sort)",
+           "T-gen (FunGen/Cmp.lean): tools/go2lean/cmp.go (the statement translator) and its mapping of calls from dt/cmp.go "
+           "into dt/list.go (Len, Front, Back, PopFront, PushBack, PushFront, Extend, lazySetup, Ok, Value, Next, Previous, "
+           "Append, NewElement, &List{}) onto the operations of the C16 model; SortQuick is not regenerated (T-diff only)"] + c16.TRUSTED
 ASSUMPTIONS = c16.ASSUMPTIONS + ["comparators are strict weak orderings"]
 
 
